@@ -400,8 +400,8 @@ type State struct {
 	facts   []*Term // always-valid facts (type invariants of values read from memory); hoisted out of spec evaluation
 	pc      []*Term
 	heaps   map[string]*Term
-	base    int // index of the current allocation base symbol a<base>
-	allocN  int // allocations since base
+	base    int             // index of the current allocation base symbol a<base>
+	allocN  int             // allocations since base
 	written map[string]bool // heap keys stored to (for loop modset discovery), shared along a path
 	dead    bool
 }
@@ -459,6 +459,7 @@ func (s *State) AssumeFact(t *Term) {
 		}
 	}
 	s.facts = append(s.facts, t)
+	learnFact(t)
 }
 
 // knows reports whether t (or its negation) is syntactically implied by the path condition.
@@ -530,8 +531,8 @@ func (s *State) NewBase() {
 
 // Loc is a typed memory location.
 type Loc struct {
-	Key string   // heap key prefix
-	Idx []*Term  // [ref] for object fields, [arr, index] for array elements
+	Key string  // heap key prefix
+	Idx []*Term // [ref] for object fields, [arr, index] for array elements
 	T   types.Type
 }
 
